@@ -378,3 +378,22 @@ def int_padded(s, w1, ws_pattern, w2, *tokens):
     for v, p in zip(vals, pats):
         pre = pre and (p is None or re.fullmatch(p, v) is not None)
     return (not pre) or py_int_strip(s) == "".join(vals)
+
+
+def excludes(v, pattern, ch):
+    import re
+
+    return re.fullmatch(pattern, v) is None or ch not in v
+
+
+def strip_core(s, w1, ws_pattern, w2, core):
+    import re
+
+    pre = (s == w1 + core + w2 and re.fullmatch(ws_pattern, w1) is not None and re.fullmatch(ws_pattern, w2) is not None
+           and core.strip() == core and len(core) > 0)
+    return (not pre) or s.strip() == core
+
+
+def cut_at(a, sep, b):
+    s = a + sep + b
+    return (sep in a) or (s.find(sep) == len(a) and s[:len(a)] == a and s[len(a) + 1:] == b)
